@@ -62,11 +62,12 @@ def _configs(draw, tier):
     kind = draw(st.sampled_from(["EN", "EN", "SB"]))
     K_p = draw(st.sampled_from([1.0, 1.2, 2.0, 3.5, 7.0] if kind == "EN" else [1.2, 2.0, 3.5, 7.0]))
     bins = draw(st.sampled_from([50, 100]))
+    passes = draw(st.sampled_from([2, 2, 2, 3, 4]))
     # peak load relative to tensile strength: elastic ... strongly plastic
     peak = draw(st.sampled_from([0.25, 0.5, 1.0, 2.0])) * R_m
     m = max(abs(x) for x in seq)
     unit = 2.0 ** math.floor(math.log2(peak / m))      # dyadic scale: loads stay exact
-    return {"seq": seq, "unit": unit, "group": group, "R_m": R_m, "kind": kind, "K_p": K_p, "bins": bins}
+    return {"seq": seq, "unit": unit, "group": group, "R_m": R_m, "kind": kind, "K_p": K_p, "bins": bins, "passes": passes}
 
 
 def _law(case, max_load):
@@ -85,11 +86,13 @@ def compare_with_reference(case, ctx):
     loads = [x * case["unit"] for x in case["seq"]]
     max_load = max(abs(x) for x in loads)
     law, binned = _law(case, max_load)
+    passes = case.get("passes", 2)
     ref = href.HCM(binned)
-    p1, p2 = href.reversal_schedule(loads)
-    ref.run_pass(p1)
+    sched = href.reversal_schedule(loads, passes)
+    ref.run_pass(sched[0])
     n1 = len(ref.strain_values)
-    ref.run_pass(p2)
+    for p in sched[1:]:
+        ref.run_pass(p)
     want = ref.derived()
     ev = ref.events
     ctx.label(case["kind"], "bins=%d" % case["bins"])
@@ -100,8 +103,10 @@ def compare_with_reference(case, ctx):
     if "memory2" in ev or "memory3" in ev or depth >= 2:
         ctx.nontrivial()
 
-    det, rec = _hcm.run_two_pass(loads, binned)
+    det, rec = _hcm.run_two_pass(loads, binned, passes=passes)
     df = _collective(rec)
+    if passes > 2:
+        ctx.label("passes=%d" % passes)
     if len(df) != len(want):
         raise Violation("%d hystereses recorded, reference procedure gives %d (loads %r): got %r, want %r" % (
             len(df), len(want), loads, list(zip(df["loads_min"], df["loads_max"], df["run_index"])),
